@@ -563,6 +563,8 @@ func corpusCase(label string, names, texts []string, nsmod map[string]string, au
 				a.SubNoPrefix = true
 			case "actionnoio":
 				a.ActionNoIO = true
+			case "shareduses":
+				a.SharedUses = true
 			}
 			if a.Expect != gen.C07Apply {
 				k.ExpectClean = false
@@ -744,6 +746,28 @@ func corpus(seed int64) []rescorr.Case {
 			"  augment \"/pa:y\" { leaf n2 { type string; } }\n}\n"},
 		gforest(nd("a", "/a/x/e/n1", "urn:c"), nd("a", "/a/x/e/n1/q", "urn:c"), nd("a", "/a/y/n2", "urn:c")),
 		ap(nd("a", "/a/x/e/n1", "urn:c")), ap(nd("a", "/a/y/n2", "urn:c")))
+	// 17.-19. two augments of one target whose clashing children come from uses of ONE grouping: the
+	// second cannot be applied and must be reported, although both copies stem from the same statements
+	abcd := map[string]string{"urn:a": "a", "urn:b": "b", "urn:c": "c", "urn:d": "d"}
+	coll := cAug{expect: gen.C07Collide, flag: "shareduses"}
+	out = append(out, corpusCase("shared-grouping-across-modules", []string{"a.yang", "b.yang", "c.yang", "d.yang"}, []string{
+		hdr("a") + "  container top {\n    leaf own { type string; }\n  }\n}\n",
+		hdr("b", "a", "c") + "  augment \"/pa:top\" { uses pc:g; }\n}\n",
+		hdr("c") + "  grouping g {\n    leaf shared { type string; }\n    container box {\n      leaf inner { type string; }\n    }\n  }\n}\n",
+		hdr("d", "a", "c") + "  augment \"/pa:top\" { uses pc:g; leaf extra { type string; } }\n}\n"},
+		abcd, []cAug{coll, coll}, nil, seed+int64(len(out))))
+	add("shared-grouping-same-module", []string{"a.yang", "b.yang"}, []string{
+		hdr("a") + "  container top;\n}\n",
+		hdr("b", "a") + "  grouping g {\n    leaf shared { type string; }\n  }\n" +
+			"  augment \"/pa:top\" { uses g; }\n" +
+			"  augment \"/pa:top\" { uses g; }\n}\n"},
+		coll, coll)
+	add("shared-grouping-module-and-submodule", []string{"a.yang", "b.yang", "b-s1.yang"}, []string{
+		hdr("a") + "  container top {\n    leaf own { type string; }\n  }\n}\n",
+		hdr("b", "a", "b-s1") + "  augment \"/pa:top\" { uses g; }\n}\n",
+		"submodule b-s1 {\n  belongs-to b { prefix pb; }\n  import a { prefix pa; }\n  grouping g {\n    container box {\n      leaf inner { type string; }\n    }\n  }\n" +
+			"  augment \"/pa:top\" { leaf before { type string; } uses g; leaf after { type string; } }\n}\n"},
+		coll, coll)
 	return out
 }
 
@@ -772,6 +796,11 @@ func shapeOf(i int) int {
 	if i%2 == 0 {
 		return gen.C07Mixed
 	}
+	if (i/2)%5 == 2 {
+		// the collision in which the clashing children are one shared definition needs sets in which
+		// nothing else fails: a fifth of the named sets
+		return gen.C07SharedUses
+	}
 	shape := 1 + (i/2)%(gen.C07NumShapes-1)
 	if shape == gen.C07ImplicitCase && (i/2/(gen.C07NumShapes-1))%4 != 0 {
 		shape = gen.C07ChainWorst + (i/2)%2
@@ -797,7 +826,7 @@ func main() {
 	const batch = 4000
 	distinct := lib.NewDistinct()
 	all := lib.NewDistinct()
-	var clean, withErr, outside, skipped, outsideClaim, variantsRun, expClean, expErr, exhaustive, total, childlessSets, childlessSets2 int64
+	var clean, withErr, outside, skipped, outsideClaim, variantsRun, expClean, expErr, exhaustive, total, childlessSets, childlessSets2, sharedOnlySets int64
 	shapeCount := map[string]int64{}
 	expectCount := map[string]int64{}
 	originCount := map[string]int64{}
@@ -828,6 +857,18 @@ func main() {
 				if a.Childless && a.Expect == gen.C07Apply {
 					childless[a.TargetPath+"|"+a.TargetArg] = true
 				}
+			}
+			sharedOnly, anyFail := true, false
+			for _, a := range k.Augs {
+				if a.Expect != gen.C07Apply {
+					anyFail = true
+					if !a.SharedUses || a.Expect != gen.C07Collide {
+						sharedOnly = false
+					}
+				}
+			}
+			if anyFail && sharedOnly {
+				sharedOnlySets++
 			}
 			if len(childless) > 0 {
 				childlessSets++
@@ -978,6 +1019,7 @@ func main() {
 	res.Distribution["expected_error_sets"] = expErr
 	res.Distribution["sets_augmenting_a_childless_grouping_container"] = childlessSets
 	res.Distribution["sets_augmenting_two_or_more_childless_instances"] = childlessSets2
+	res.Distribution["sets_whose_only_expected_failure_is_a_shared_grouping_collision"] = sharedOnlySets
 	res.Distribution["outside_model"] = outside
 	res.Distribution["go_parse_rejected"] = skipped
 	res.Distribution["outside_claim(implicit case as target)"] = outsideClaim
